@@ -106,6 +106,8 @@ def check(run):
               'm_expired=true on every path through fire()')
     flows = handlers.flows_in(fx, fr)
     fire_posts_rule(run)
+    fire_only_dequeued_rule(run)
+    ctor_typestate_rule(run)
     run.check(not [f for f in flows if f.borrowed], 'R6', 'not-borrowed', T + '::fire', fr.loc(), 'the posted completion borrows m_handler (std::ref/&) instead of owning it', 'completion owns the handler')
     sf = handlers.SlotFlow(fx, T + '::m_handler', {T})
     run.check(sf.exit_state(fr) == handlers.EMPTY, 'R6', 'slot-cleared', T + '::fire', fr.loc(), 'm_handler may still be set when fire() returns (a second fire would run it again)', 'm_handler is empty on every exit of fire()')
@@ -279,6 +281,56 @@ def cancel_dequeues_rule(run):
     run.check(bool(removes) and not q.exit_reachable_under(cn, None, removes, queued), 'R4', 'cancel-dequeues-when-queued', T + '::cancel', cn.loc(),
               'with the timer queued (m_expired false) a path through cancel() returns without remove_timer(this) - e.g. when no handler is waiting: a timer that was armed but never waited on stays in the queue after it is destroyed, and run() later dereferences the dangling pointer',
               'every path with m_expired false passes remove_timer(this)')
+
+
+def ctor_typestate_rule(run):
+    """The typestate holds from construction: a constructor that initialises m_expired to false must put the timer on
+    the queue on every path (add_timer(this)); the ones that construct it expired and then call expires_at/after are
+    covered by the re-arm rules.  A default-constructed timer marked pending is never queued: its first async_wait
+    parks a handler that no run() will ever complete, and cancel() asks the simulation to remove a timer it never held."""
+    fx = run.fx
+    n = 0
+    for fn in fx.fn(T + '::high_resolution_timer'):
+        for it in fn.inits:
+            if it.get('field') != 'm_expired' or not it.get('written'):
+                continue
+            v = q.strip_casts(it.get('e'))
+            if not (is_node(v) and isinstance(v.get('v'), bool)):
+                continue        # copied from another timer (move construction): C12's move rules
+            n += 1
+            run.touch(fn)
+            adds = [c for c in _calls(fn, 'io_context::add_timer') if c.get('args') and q.is_this(c['args'][0])]
+            ok = v['v'] is True or (bool(adds) and q.on_all_paths(fn, adds))
+            run.check(ok, 'R4', 'ctor-unexpired-implies-queued', fn.norm + fn.sig, fn.loc(),
+                      'the constructor marks the timer pending (m_expired(false)) without queuing it (no add_timer(this) on every path): async_wait() on the fresh timer parks a handler that never completes, and cancel()/the destructor ask the simulation to erase a timer it does not hold',
+                      'constructed expired (not queued)' if v['v'] else 'constructed pending and queued on every path')
+    if n < 3:
+        run.broke('only %d constructors of high_resolution_timer initialise m_expired with a literal (3 confirmed by hand)' % n)
+
+
+def fire_only_dequeued_rule(run):
+    """fire() sets m_expired=true on every path, so by the typestate (queued <=> !m_expired) every call of fire() must
+    act on a timer that is NOT in the queue: the caller removed it first (remove_timer(this) in cancel, the front pop in
+    run) or the call is guarded by m_expired (a wait started on an expired timer). A cancel_one() that aborts the wait
+    itself without dequeuing leaves a queued timer marked expired: run() fires it again later / a re-arm inserts it twice."""
+    fx = run.fx
+    n = 0
+    for fn in fx.repo_functions():
+        cs = _calls(fn, 'high_resolution_timer::fire')
+        if not cs or fn.norm == T + '::fire':
+            continue
+        run.touch(fn)
+        removes = [c for c in _calls(fn, 'io_context::remove_timer') + _calls(fn, 'simulation::remove_timer')]
+        pops = [c for op, c in q.container_calls(fn, 'm_timer_queue') if op in ('erase', 'pop_front', 'pop_back')]
+        for c in cs:
+            n += 1
+            guarded = any(q.render(fn, q.strip_casts(at)) == 'm_expired' and pol for at, pol in q.guards_at(fn, c))
+            ok = guarded or q.any_precedes(fn, removes + pops, c)
+            run.check(ok, 'R4', 'fire-only-dequeued', q.top_function(fx, fn).norm, fn.loc(c),
+                      'fire() is called on a timer that may still be queued (no remove_timer(this)/queue pop before it and not under if (m_expired)): fire marks it expired while the simulation still holds it - the wait is aborted but the stale queue entry fires a second time, and a re-arm inserts the timer twice',
+                      'dequeued before fire()' if not guarded else 'under if (m_expired): not queued')
+    if n < 3:
+        run.broke('only %d callers of high_resolution_timer::fire found (cancel, async_wait, run confirmed by hand)' % n)
 
 
 def fire_posts_rule(run):
